@@ -34,6 +34,7 @@ pub const DICT: &[&[u8]] = &[
     b"<init>", b"1:1:", b"5:9:", b":7", b":7:9", b"x.Y", b"\xc3\xa9",
 ];
 
+
 pub const HOSTILE_DICT: &[&[u8]] = &[
     b"4294967295",
     b"4294967296",
@@ -63,6 +64,13 @@ pub const HOSTILE_DICT: &[&[u8]] = &[
     b" -> :",
     b"()",
     b".",
+    b"\x0b",
+    b"\x0c",
+    b"\\",
+    b"\xef\xbb\xbf",
+    b"\xc2\xa0",
+    b"\xe2\x80\xa8",
+    b"\xc2\x85",
 ];
 
 pub fn tokenize(b: &[u8]) -> Vec<Vec<u8>> {
